@@ -19,7 +19,7 @@ ASSUMPTIONS = ["admitted alternatives: pa_level invalid -> ValueError or 0dBm+LN
                "clamp(x) or clamp(|x|); address_length outside 3..5 -> 2 bytes",
                "non-plus start_carrier_wave: IRQ mask bits of CONFIG are don't-care until "
                "the documented `with` restore"]
-BUDGET = {"quick": 150, "thorough": 420}
+BUDGET = {"quick": 480, "thorough": 900}
 
 A5 = "hex:3141424344"
 B3 = "hex:c1c2c3"
